@@ -169,7 +169,7 @@ def prove(prop_id, props_file, allowed_axioms=(), thorough=False, timeout=1500):
         if blk.startswith("Closed"):
             r.assumptions[name] = []
         else:
-            ax = re.findall(r"^(\S+)\s*:", blk, re.M)
+            ax = [a for a in re.findall(r"^(\S+)\s*:", blk, re.M) if a != "Axioms"]
             r.assumptions[name] = ax
             extra = [a for a in ax if a not in allowed_axioms]
             if extra:
